@@ -328,6 +328,7 @@ class Program:
             kind = f.split(".")[-2]
             name = j["crate"] if kind in ("rlib", "lib", "proc-macro") else "%s@%s" % (j["crate"], kind)
             self.crates[name] = Crate(j, f)
+            self.crates[name].program = self
         self.load_s = time.time() - t0
         self.by_key = {}
         for c in self.crates.values():
